@@ -8,6 +8,11 @@ use narrowing::{
     Narrowing, analyze_tuple_pattern_for_complement, apply_narrowing, compute_complement,
     get_field_narrowing, get_field_type, get_type_for_provenance, narrow_nil_from_new_bindings,
 };
+/// Narrowing's type arithmetic, exposed to out-of-tree verification tooling only.
+#[cfg(quiver_verif)]
+pub mod verif_hooks {
+    pub use super::narrowing::{compute_complement, intersect_types};
+}
 mod pattern;
 mod provenance;
 mod scopes;
